@@ -995,6 +995,53 @@ impl<'r> Gen<'r> {
                 }
                 self.bind(&f, Kind::PureFunc1);
             }
+            58 | 59 if self.feat.structs || self.feat.records => {
+                // Names computed at run time (strings on the unfrozen heap, not constants): struct
+                // fields, enum members, record fields, namespace members.
+                let nl = self.fresh("nm");
+                let k = self.rng.range(2, 6);
+                self.stmts.push(format!("{nl} = []"));
+                self.stmts.push(format!("_ = [{nl}.append(\"c\" + str(len({nl})) + \"_\" + str(q)) for q in range({k})]"));
+                self.bind(&nl, Kind::List);
+                match self.rng.below(4) {
+                    0 => {
+                        let n = self.fresh("sc");
+                        let lit = self.list_lit();
+                        self.stmts.push(format!("{n} = struct(kind = {lit}, **{{x: [x, len(x)] for x in {nl}}})"));
+                        self.bind(&n, Kind::Other);
+                        let o = self.fresh("o");
+                        self.stmts.push(format!("{o} = [dir({n}), getattr({n}, {nl}[0]), hasattr({n}, {nl}[-1]), {n}]"));
+                        self.bind(&o, Kind::List);
+                    }
+                    1 => {
+                        let t = self.fresh("Ec");
+                        self.stmts.push(format!("{t} = enum(*{nl})"));
+                        self.bind(&t, Kind::Other);
+                        let o = self.fresh("o");
+                        self.stmts.push(format!("{o} = [{t}({nl}[0]), {t}({nl}[-1]).index, [m for m in {t}], repr({t}), dir({t})[:3], {t}.values() if hasattr({t}, \"values\") else None]"));
+                        self.bind(&o, Kind::List);
+                    }
+                    2 => {
+                        let t = self.fresh("Rc");
+                        self.stmts.push(format!("{t} = record(**{{x: field(typing.Any, [x]) for x in {nl}}})"));
+                        self.bind(&t, Kind::Other);
+                        let r = self.fresh("r");
+                        self.stmts.push(format!("{r} = {t}(**{{{nl}[0]: 1}})"));
+                        self.bind(&r, Kind::Other);
+                        let o = self.fresh("o");
+                        self.stmts.push(format!("{o} = [getattr({r}, {nl}[0]), getattr({r}, {nl}[-1]), dir({r}), repr({t})]"));
+                        self.bind(&o, Kind::List);
+                    }
+                    _ => {
+                        let n = self.fresh("nsc");
+                        self.stmts.push(format!("{n} = namespace(**{{x: (x, [x]) for x in {nl}}})"));
+                        self.bind(&n, Kind::Other);
+                        let o = self.fresh("o");
+                        self.stmts.push(format!("{o} = [dir({n}), getattr({n}, {nl}[0]), {n}]"));
+                        self.bind(&o, Kind::List);
+                    }
+                }
+            }
             _ => {
                 self.emit_some();
             }
